@@ -249,7 +249,7 @@ type utils.ReadersCb(streams) returns (err)
   modifies ghost(cbLen, cbErr, cbNode, cbStop, cbRet, cbLineNo, cbLine, cbHeader, cbElems, cbNElems, scRd, scPos, privLo, evOf, accKey, accP, accN, accH, bufSink, bufSticky, sinkFailed, sinkPend, prLen, prSink, prArg, prArgs, csvLen, csvW, csvN, csvRow, tnodes, tdepth, tmax, tmapOf, jlen, lastOpen)
 
 func NewCmdUtils$1 returns (err)
-  props C08 C10
+  props C08 C10 C16
   requires @cb cb != nil
   funcparam cb utils.ReadersCb
   modifies *
@@ -257,5 +257,8 @@ func NewCmdUtils$1 returns (err)
   loop 1 {
     invariant @opened len(result) == len(fileNames) && fresh(arr(result)) && fileNames == old(fileNames) && cb == old(cb)
     invariant @non-nil forall j int :: {result[j]} 0 <= j && j < #i ==> result[j] != nil
+    // an empty name (--no-database) stands for an empty input: no lines, never fails (C16)
+    invariant @empty-name forall j int :: {result[j]} 0 <= j && j < #i && fileNames[j] == "" ==> RdN(payload(result[j])) == 0 && !RdFailed(payload(result[j]))
   }
+  ghost before dyncall 1 { assert @empty-name-empty-input [C16] forall j int :: {result[j]} 0 <= j && j < len(fileNames) && fileNames[j] == "" ==> RdN(payload(result[j])) == 0 && !RdFailed(payload(result[j])) }
 @*/
